@@ -57,6 +57,7 @@ type WorkerOut struct {
 	WallS       float64           `json:"wall_s"`
 	Exhaustive  bool              `json:"exhaustive"`
 	Digests     []string          `json:"digests,omitempty"`
+	Next        int               `json:"next"` // first run index not covered by this (partial) result
 }
 
 type WorkerViolation struct {
@@ -136,7 +137,47 @@ func TestWorker(t *testing.T) {
 		}
 		out.Exhaustive = true
 	}
+	skip := map[int]bool{}
+	for _, f := range strings.Split(os.Getenv("VERIF_SKIP"), ",") {
+		if v, err := strconv.Atoi(f); err == nil {
+			skip[v] = true
+		}
+	}
+	flush := func(next int, final bool) {
+		out.PlanHashes, out.SchedHashes, out.StateHashes = out.PlanHashes[:0], out.SchedHashes[:0], out.StateHashes[:0]
+		for h := range plans {
+			out.PlanHashes = append(out.PlanHashes, h)
+		}
+		for h := range scheds {
+			out.SchedHashes = append(out.SchedHashes, h)
+		}
+		for h := range states {
+			out.StateHashes = append(out.StateHashes, h)
+		}
+		out.WallS = time.Since(start).Seconds()
+		out.Next = next
+		if outPath == "" {
+			return
+		}
+		js, _ := json.Marshal(out)
+		name := outPath + ".partial"
+		if final {
+			name = outPath
+		}
+		tmp := name + ".tmp"
+		if err := os.WriteFile(tmp, js, 0o644); err != nil {
+			fmt.Fprintln(os.Stderr, err)
+			os.Exit(2)
+		}
+		os.Rename(tmp, name)
+	}
 	for i := from; i < to; i++ {
+		if skip[i] {
+			continue
+		}
+		if (i-from)%64 == 63 {
+			flush(i, false)
+		}
 		var plan Plan
 		var seed uint64
 		if enumerate {
@@ -231,23 +272,10 @@ func TestWorker(t *testing.T) {
 			out.Violations = append(out.Violations, WorkerViolation{Class: rf.Violation.Class, Rule: rf.Violation.Rule, Msg: rf.Violation.Msg, Replay: name, Index: i})
 		}
 	}
-	for h := range plans {
-		out.PlanHashes = append(out.PlanHashes, h)
-	}
-	for h := range scheds {
-		out.SchedHashes = append(out.SchedHashes, h)
-	}
-	for h := range states {
-		out.StateHashes = append(out.StateHashes, h)
-	}
-	out.WallS = time.Since(start).Seconds()
+	flush(to, true)
 	if outPath != "" {
-		js, _ := json.Marshal(out)
-		if err := os.WriteFile(outPath, js, 0o644); err != nil {
-			fmt.Fprintln(os.Stderr, err)
-			os.Exit(2)
-		}
 		os.Remove(outPath + ".intent")
+		os.Remove(outPath + ".partial")
 	} else {
 		js, _ := json.MarshalIndent(out.Violations, "", " ")
 		fmt.Printf("runs=%d ksteps=%d violations=%s infra=%v\n", out.Runs, out.KSteps, js, out.Infra)
